@@ -159,29 +159,69 @@ func init() {
 }
 
 // intrinsic dispatches library intrinsics, vnd calls and opaque-package stubs.
-func (m *Machine) intrinsic(fn *ssa.Function, args []Value, caller *frame) (Value, bool) {
+type intrKind uint8
+
+const (
+	ikNone intrKind = iota
+	ikTable
+	ikVnd
+	ikIdna
+	ikSkipInit
+	ikRuneLen
+)
+
+type intrEntry struct {
+	kind intrKind
+	f    intrFn
+	name string
+}
+
+func (m *Machine) classifyIntrinsic(fn *ssa.Function) intrEntry {
 	name := fn.String()
 	if f, ok := intrTable[name]; ok {
-		m.stats.intrinsics[name]++
-		return f(m, args, caller), true
+		return intrEntry{kind: ikTable, f: f, name: name}
 	}
 	if fn.Pkg != nil {
 		path := fn.Pkg.Pkg.Path()
 		if fn.Synthetic == "package initializer" && (!m.interpPkg(path) || strings.HasSuffix(path, "/internal/vnd")) {
-			return nil, true // skipped initialiser
+			return intrEntry{kind: ikSkipInit}
 		}
 		if strings.HasSuffix(path, "/internal/vnd") {
-			m.stats.intrinsics["vnd."+fn.Name()]++
-			return m.vndCall(fn.Name(), args, caller), true
+			return intrEntry{kind: ikVnd, name: fn.Name()}
 		}
-		switch path {
-		case "golang.org/x/net/idna":
-			// option constructors and idna.New inside package initialisers: mirrored natively
-			m.stats.intrinsics["idna.<opaque>"]++
-			return m.idnaConstruct(fn, args), true
+		if path == "golang.org/x/net/idna" {
+			return intrEntry{kind: ikIdna}
 		}
 	}
 	if name == "unicode/utf8.RuneLen" {
+		return intrEntry{kind: ikRuneLen}
+	}
+	return intrEntry{kind: ikNone}
+}
+
+// intrinsic dispatches library intrinsics, vnd calls and opaque-package stubs.
+func (m *Machine) intrinsic(fn *ssa.Function, args []Value, caller *frame) (Value, bool) {
+	e, ok := m.intrCache[fn]
+	if !ok {
+		e = m.classifyIntrinsic(fn)
+		m.intrCache[fn] = e
+	}
+	switch e.kind {
+	case ikNone:
+		return nil, false
+	case ikTable:
+		m.stats.intrinsics[e.name]++
+		return e.f(m, args, caller), true
+	case ikSkipInit:
+		return nil, true // skipped initialiser
+	case ikVnd:
+		m.stats.intrinsics["vnd."+e.name]++
+		return m.vndCall(e.name, args, caller), true
+	case ikIdna:
+		// option constructors and idna.New inside package initialisers: mirrored natively
+		m.stats.intrinsics["idna.<opaque>"]++
+		return m.idnaConstruct(fn, args), true
+	case ikRuneLen:
 		r := args[0].(*Term)
 		if r.op == OpConst {
 			return m.st.Const(64, uint64(int64(utf8.RuneLen(rune(int32(r.k)))))), true
